@@ -41,7 +41,7 @@ func funcTexts(code string) map[string]string {
 
 func c15(c *Ctx) {
 	c.Rep.TieObs = []string{"O-emit.text", "O-emit.map"}
-	c.Rep.Rule = "generator files compiled (a) three times through different worker processes, (b) by both entry points and code paths (ParseFile + Generate for the CLI, ParseString + Compose for the language server; also with a byte order mark, CRLF line ends and no final line break), (c) from 16 goroutines at once in permuted orders, (d) in pairs that differ in one template only; oracle: byte-identical text and identical position tables, unchanged templates keep their code; distinct = distinct input file; non-trivial = file has at least two templates"
+	c.Rep.Rule = "generator files compiled (a) three times through different worker processes, (b) by both entry points and code paths (ParseFile + Generate for the CLI, ParseString + Compose for the language server; also with a byte order mark, CRLF line ends and no final line break), (c) from 16 goroutines at once in permuted orders, (d) in pairs that differ in one template only, and in pairs where all templates but one are deleted; oracle: byte-identical text and identical position tables, unchanged templates keep their code; distinct = distinct input file; non-trivial = file has at least two templates"
 	var ins [][]byte
 	var files []*gen.File
 	n := c.N(60, 2500)
@@ -136,6 +136,15 @@ func c15(c *Ctx) {
 		mods = append(mods, []byte(src))
 		modOf = append(modOf, i)
 		replaced = append(replaced, old.Name)
+		// the strongest edit of the siblings: all of them deleted (the kept template must still compile to the same code)
+		all := f.Templates
+		keep := all[c.R.Intn(len(all))]
+		f.Templates = []*gen.Template{keep}
+		_, src = f.Print()
+		f.Templates = all
+		mods = append(mods, []byte(src))
+		modOf = append(modOf, i)
+		replaced = append(replaced, "every template but "+keep.Name)
 	}
 	mp := c.compileBoth(mods)
 	c.tieCompile(mp, map[string]bool{"text": true, "accept": true, "outcome": true})
@@ -152,7 +161,7 @@ func c15(c *Ctx) {
 				continue
 			}
 			if tb, ok := b[name]; ok && ta != tb {
-				c.fail("C15/sibling-dependence", fmt.Sprintf("editing template %s changed the code of template %s", replaced[j], name),
+				c.fail("C15/sibling-dependence", fmt.Sprintf("replacing or deleting (%s) changed the code of template %s", replaced[j], name),
 					map[string]string{"input_hex": hx(ins[modOf[j]]), "modified_hex": hx(mods[j]), "changed": name})
 				break
 			}
@@ -299,12 +308,17 @@ func (c *Ctx) genC11(i int, risky bool) c11File {
 
 func c11(c *Ctx) {
 	c.Rep.TieObs = []string{"O-emit.text (generated Go byte for byte)"}
-	c.Rep.Rule = "files interleaving Go declarations (funcs, types, var/const blocks, multi-line raw strings and block comments whose lines start with p, i, }, and with white space before @goht) with templates, single and grouped imports in any order and multiplicity (aliases, dot, blank, duplicates, duplicates of goht's own), package clause present / absent / preceded by comments; oracle on real Generate output: every Go line unmodified and in order, each declaration verbatim after `func `, package, import list; distinct = distinct file; non-trivial = file has Go code between templates"
+	c.Rep.Rule = "files interleaving Go declarations (funcs, types, var/const blocks, multi-line raw strings and block comments whose lines start with p, i, }, and with white space before @goht) with templates, single and grouped imports in any order and multiplicity (aliases, dot, blank, duplicates, duplicates of goht's own), package clause present / absent / preceded by comments; every fourth file with CRLF line ends; oracle on real Generate output: every Go line unmodified and in order, each declaration verbatim after `func `, package, import list; distinct = distinct file; non-trivial = file has Go code between templates"
 	var files []c11File
 	var ins [][]byte
 	n := c.N(150, 6000)
 	for i := 0; i < n; i++ {
 		f := c.genC11(i, false)
+		if i%4 == 3 {
+			// the same file as saved by an editor that writes CRLF line ends
+			f.src = strings.ReplaceAll(f.src, "\n", "\r\n")
+			f.features = append(f.features, "crlf-line-ends")
+		}
 		files = append(files, f)
 		ins = append(ins, []byte(f.src))
 	}
@@ -350,6 +364,10 @@ func c11(c *Ctx) {
 			continue
 		}
 		out := string(p.Impl.Text)
+		if contains(f.features, "crlf-line-ends") {
+			// Go lines are copied with their own line ends; a carriage return before a line feed is the line end here
+			out = strings.ReplaceAll(out, "\r\n", "\n")
+		}
 		// package
 		if !strings.Contains(out, "\npackage "+f.pkg+"\n") {
 			report("package", fmt.Sprintf("package clause %q not found in the generated file", f.pkg))
